@@ -95,6 +95,7 @@ func gen(g *hx.Gen) {
 		emit(g, s.Op, s.Bytes)
 	}
 	genMsg(g)
+	genDmsg(g)
 	// every prefix of a few valid encodings (each list position is hit by a truncation)
 	for i := 0; i < g.N(6, 40); i++ {
 		s := wire.GenSample(r)
@@ -113,6 +114,9 @@ func oracle(t []string, out string) *hx.Violation {
 	}
 	if t[0] == "msg" {
 		return msgOracle(t, out)
+	}
+	if t[0] == "dmsg" {
+		return dmsgOracle(t, out)
 	}
 	tok := t[len(t)-1]
 	body := t
@@ -197,6 +201,9 @@ func watchdog() {
 func exec(t []string) string {
 	if t[0] == "msg" {
 		return execMsg(t)
+	}
+	if t[0] == "dmsg" {
+		return execDmsg(t)
 	}
 	return wire.Exec(t)
 }
